@@ -90,3 +90,19 @@ func (v *VerifRing) PickerPick(states map[string]connectivity.State, random bool
 	}
 	return err.Error(), exited
 }
+
+// VerifBalancerRing returns the ring currently held by a ringhash balancer built with the real
+// builder (nil if none yet).
+func VerifBalancerRing(b balancer.Balancer) []VerifItem {
+	rb := b.(*ringhashBalancer)
+	rb.mu.Lock()
+	defer rb.mu.Unlock()
+	if rb.ring == nil {
+		return nil
+	}
+	out := make([]VerifItem, len(rb.ring.items))
+	for i, it := range rb.ring.items {
+		out[i] = VerifItem{Idx: it.idx, Hash: it.hash, HashKey: it.hashKey, Weight: it.weight}
+	}
+	return out
+}
